@@ -19,14 +19,17 @@ type c50Names struct {
 	astPkgSuffix                 string   // package of the parsed statement types whose fields feed the overrides
 	mustEscape                   []string // option fields whose occurrences inside a value the writer has to escape
 	escapeField                  string
+	outfileField                 string // field of the OUTFILE node naming the file (a node without it configures no format)
 }
 
 func init() {
 	real := c50Names{planRel: "sql/plan", builderRel: "sql/planbuilder", execRel: "sql/rowexec", intoType: "Into", loadType: "LoadData",
 		intoCtor: "NewInto", loadCtor: "NewLoadData", astPkgSuffix: "vitess/go/vt/sqlparser",
-		mustEscape: []string{"FieldsEscapedBy", "FieldsEnclosedBy", "FieldsTerminatedBy", "LinesTerminatedBy"}, escapeField: "FieldsEscapedBy"}
+		mustEscape: []string{"FieldsEscapedBy", "FieldsEnclosedBy", "FieldsTerminatedBy", "LinesTerminatedBy"}, escapeField: "FieldsEscapedBy", outfileField: "Outfile"}
 	fx := real
 	fx.planRel, fx.builderRel, fx.execRel, fx.astPkgSuffix = "testdata/c50/plan", "testdata/c50/builder", "testdata/c50/exec", "testdata/c50/ast"
+	fxo := real
+	fxo.planRel, fxo.builderRel, fxo.execRel, fxo.astPkgSuffix = "testdata/c50/oplan", "testdata/c50/obuilder", "testdata/c50/oexec", "testdata/c50/oast"
 	register(&Property{
 		ID:        "C50",
 		Patterns:  []string{"./sql/rowexec", "./sql/planbuilder"},
@@ -40,7 +43,7 @@ func init() {
 			"guards that only differ in how they compare (e.g. TERMINATED BY '' handling)",
 		Run: func(c *Ctx) {
 			runC50(c, real, 6)
-			runC50Opts(c, real, c50Floors{o1: 6, o2: 6, o3: 2, o4: 2, o5: 12})
+			runC50Opts(c, real, c50Floors{o1: 6, o2: 6, o3: 5, o4: 2, o5: 15, o6: 4})
 		},
 		Fixture: func(c *Ctx, fx2 *Prog) {
 			expectFixture(c, fx2, "c50: different default, different override source, option ignored by one executor, unescaped delimiter must be reported",
@@ -52,8 +55,19 @@ func init() {
 					"C50-E1:buildInto/FieldsTerminatedBy", "C50-E1:buildInto/FieldsEnclosedBy", "C50-E1:buildInto/FieldsEscapedBy",
 				},
 				func(fc *Ctx) { runC50(fc, fx, 0) })
+			expectFixture(c, fx2, "c50 option plumbing: extra emptiness guard on one override, cross-wired carrier, missing NULL escape letter, reader-only rejection, hard-coded escape character, node rebuilt through the constructor must be reported",
+				[]string{
+					"C50-O1:FieldsEscapedBy",
+					"C50-O2:loadIter.linesStartingBy",
+					"C50-O3:buildInto/NULL with escaping enabled",
+					"C50-O4:len(%.FieldsEnclosedBy)>=2",
+					"C50-O5:loadIter.parse/FieldsEscapedBy",
+					"C50-O6:Into.Copy/NewInto(Outfile=i.Outfile)",
+				},
+				func(fc *Ctx) { runC50Opts(fc, fxo, c50Floors{}) })
 		},
-		FixturePkgs: []string{"./testdata/c50/plan", "./testdata/c50/builder", "./testdata/c50/exec", "./testdata/c50/ast"},
+		FixturePkgs: []string{"./testdata/c50/plan", "./testdata/c50/builder", "./testdata/c50/exec", "./testdata/c50/ast",
+			"./testdata/c50/oplan", "./testdata/c50/obuilder", "./testdata/c50/oexec", "./testdata/c50/oast"},
 	})
 }
 
